@@ -246,6 +246,11 @@ func oracleMessage(c *Ctx, spc *MsgSpec, out []byte, checkC01, checkC02 bool) {
 				}
 			}
 		}
+		if checkC02 && x.desc == "" {
+			if got, n := l.Get("Content-Description"); n > 0 {
+				c.Violate("c02-extra-part-field", fmt.Sprintf("leaf %d carries a Content-Description (%q) that nobody set for it", i, got), spc)
+			}
+		}
 		if !checkC01 {
 			continue
 		}
